@@ -28,21 +28,22 @@ fn stub_personal<'a>(p: &'a mut blake2b_simd::Params, personalization: &[u8]) ->
 fn stub_hash(_p: &blake2b_simd::Params, input: &[u8]) -> blake2b_simd::Hash {
     let (len, pers) = unsafe { (LAST_LEN, LAST_PERS) };
     assert!(len >= 1 && len <= 64);
+    // rotate/xor/add only: multipliers made the 16-round harness need > 16 GB
     let mut s: u32 = len as u32;
     let mut i = 0;
     while i < 16 {
-        s = s.wrapping_mul(31).wrapping_add(pers[i] as u32);
+        s = s.rotate_left(5) ^ (pers[i] as u32).wrapping_add(i as u32);
         i += 1;
     }
     let mut i = 0;
     while i < input.len() {
-        s = s.wrapping_mul(131).wrapping_add(input[i] as u32 ^ (i as u32) << 8);
+        s = s.rotate_left(7).wrapping_add(input[i] as u32 ^ ((i as u32) << 8));
         i += 1;
     }
     let mut raw = [0u8; 65];
     let mut k = 0;
     while k < len {
-        raw[k] = (s.wrapping_add((k as u32).wrapping_mul(0x9E37_79B9)) >> 11) as u8 ^ input[k % input.len()];
+        raw[k] = (s.rotate_left((k % 32) as u32) as u8) ^ (k as u8) ^ input[k % input.len()];
         k += 1;
     }
     raw[64] = len as u8;
@@ -59,28 +60,30 @@ fn cpuid_none(_leaf: u32, _sub: u32) -> core::arch::x86_64::CpuidResult {
 }
 
 macro_rules! jumble_bijection {
-    ($name:ident, $l:expr) => {
+    ($name:ident, $l:expr, $fwd:expr) => {
         #[kani::proof]
         #[kani::stub(blake2b_simd::Params::hash_length, stub_hash_length)]
         #[kani::stub(blake2b_simd::Params::personal, stub_personal)]
         #[kani::stub(blake2b_simd::Params::hash, stub_hash)]
         #[kani::stub(core::arch::x86_64::__cpuid_count, cpuid_none)]
-        #[kani::unwind(200)]
+        #[kani::unwind(4)]
         fn $name() {
             const L: usize = $l;
             let m: [u8; L] = kani::any();
-            let mut a = m;
-            assert!(f4jumble::f4jumble_mut(&mut a).is_ok());
-            let mut b = a;
-            assert!(f4jumble::f4jumble_inv_mut(&mut b).is_ok());
             let i: usize = kani::any();
             kani::assume(i < L);
-            assert!(b[i] == m[i]); // inv(jumble(m)) == m
-            let mut c = m;
-            assert!(f4jumble::f4jumble_inv_mut(&mut c).is_ok());
-            let mut d = c;
-            assert!(f4jumble::f4jumble_mut(&mut d).is_ok());
-            assert!(d[i] == m[i]); // jumble(inv(m)) == m
+            let mut a = m;
+            if $fwd {
+                assert!(f4jumble::f4jumble_mut(&mut a).is_ok());
+                let mut b = a;
+                assert!(f4jumble::f4jumble_inv_mut(&mut b).is_ok());
+                assert!(b[i] == m[i]); // inv(jumble(m)) == m
+            } else {
+                assert!(f4jumble::f4jumble_inv_mut(&mut a).is_ok());
+                let mut d = a;
+                assert!(f4jumble::f4jumble_mut(&mut d).is_ok());
+                assert!(d[i] == m[i]); // jumble(inv(m)) == m
+            }
             // non-vacuity: the transform is not the identity and reaches the last byte
             kani::cover!(a[L - 1] != m[L - 1]);
             kani::cover!(a[0] != m[0]);
@@ -88,18 +91,30 @@ macro_rules! jumble_bijection {
     };
 }
 
-//@ {"p":"C10","tier":"quick","clause":"f4jumble_inv(f4jumble(m)) == m and f4jumble(f4jumble_inv(m)) == m, same length, for every message of length 48 (left 24 / right 24, one G block)","bounds":"all messages of length 48","assume":"stub: blake2b_simd::Params::{hash_length,personal,hash} replaced by a deterministic mixing function (hash abstraction; Feistel invertibility does not depend on the round function)","covers":2,"t":900,"stub":true}
-jumble_bijection!(c10_jumble_48, 48);
-//@ {"p":"C10","tier":"quick","clause":"same, length 129 (left saturates at 64, right 65: two G blocks, the second a 1-byte tail)","bounds":"all messages of length 129","assume":"stub: BLAKE2b abstracted","covers":2,"t":1200,"stub":true}
-jumble_bijection!(c10_jumble_129, 129);
-//@ {"p":"C10","tier":"seeded:jumble","clause":"same, length 63 (odd length, left 31 / right 32)","bounds":"all messages of length 63","assume":"stub: BLAKE2b abstracted","covers":2,"t":1200,"stub":true}
-jumble_bijection!(c10_jumble_63, 63);
-//@ {"p":"C10","tier":"seeded:jumble","clause":"same, length 128 (left 64 / right 64)","bounds":"all messages of length 128","assume":"stub: BLAKE2b abstracted","covers":2,"t":1200,"stub":true}
-jumble_bijection!(c10_jumble_128, 128);
-//@ {"p":"C10","tier":"seeded:jumble","clause":"same, length 65","bounds":"all messages of length 65","assume":"stub: BLAKE2b abstracted","covers":2,"t":1200,"stub":true}
-jumble_bijection!(c10_jumble_65, 65);
-//@ {"p":"C10","tier":"thorough","clause":"same, length 193 (right 129: three G blocks)","bounds":"all messages of length 193","assume":"stub: BLAKE2b abstracted","covers":2,"t":2400,"stub":true}
-jumble_bijection!(c10_jumble_193, 193);
+//@ {"p":"C10","tier":"quick","clause":"f4jumble_inv(f4jumble(m)) == m and f4jumble(f4jumble_inv(m)) == m, same length, for every message of length 48 (left 24 / right 24, one G block)","bounds":"all messages of length 48","assume":"stub: blake2b_simd::Params::{hash_length,personal,hash} replaced by a deterministic mixing function (hash abstraction; Feistel invertibility does not depend on the round function)","covers":2,"t":900,"stub":true,"unwindset":{"f4jumble::xor.0":66,"blake2b_simd::Params::hash.0":18,"blake2b_simd::Params::hash.1":196,"blake2b_simd::Params::hash.2":66,"g_round.0":5}}
+jumble_bijection!(c10_jumble_48, 48, true);
+//@ {"p":"C10","tier":"quick","clause":"(direction jumble(inv(m))) f4jumble_inv(f4jumble(m)) == m and f4jumble(f4jumble_inv(m)) == m, same length, for every message of length 48 (left 24 / right 24, one G block)","bounds":"all messages of length 48","assume":"stub: blake2b_simd::Params::{hash_length,personal,hash} replaced by a deterministic mixing function (hash abstraction; Feistel invertibility does not depend on the round function)","covers":2,"t":900,"stub":true,"unwindset":{"f4jumble::xor.0":66,"blake2b_simd::Params::hash.0":18,"blake2b_simd::Params::hash.1":196,"blake2b_simd::Params::hash.2":66,"g_round.0":5}}
+jumble_bijection!(c10_jumble_48_inv, 48, false);
+//@ {"p":"C10","tier":"thorough","clause":"same, length 129 (left saturates at 64, right 65: two G blocks, the second a 1-byte tail)","bounds":"all messages of length 129","assume":"stub: BLAKE2b abstracted","covers":2,"t":1200,"stub":true,"unwindset":{"f4jumble::xor.0":66,"blake2b_simd::Params::hash.0":18,"blake2b_simd::Params::hash.1":196,"blake2b_simd::Params::hash.2":66,"g_round.0":5}}
+jumble_bijection!(c10_jumble_129, 129, true);
+//@ {"p":"C10","tier":"thorough","clause":"(direction jumble(inv(m))) same, length 129 (left saturates at 64, right 65: two G blocks, the second a 1-byte tail)","bounds":"all messages of length 129","assume":"stub: BLAKE2b abstracted","covers":2,"t":1200,"stub":true,"unwindset":{"f4jumble::xor.0":66,"blake2b_simd::Params::hash.0":18,"blake2b_simd::Params::hash.1":196,"blake2b_simd::Params::hash.2":66,"g_round.0":5}}
+jumble_bijection!(c10_jumble_129_inv, 129, false);
+//@ {"p":"C10","tier":"seeded:jumble","clause":"same, length 63 (odd length, left 31 / right 32)","bounds":"all messages of length 63","assume":"stub: BLAKE2b abstracted","covers":2,"t":1200,"stub":true,"unwindset":{"f4jumble::xor.0":66,"blake2b_simd::Params::hash.0":18,"blake2b_simd::Params::hash.1":196,"blake2b_simd::Params::hash.2":66,"g_round.0":5}}
+jumble_bijection!(c10_jumble_63, 63, true);
+//@ {"p":"C10","tier":"seeded:jumble","clause":"(direction jumble(inv(m))) same, length 63 (odd length, left 31 / right 32)","bounds":"all messages of length 63","assume":"stub: BLAKE2b abstracted","covers":2,"t":1200,"stub":true,"unwindset":{"f4jumble::xor.0":66,"blake2b_simd::Params::hash.0":18,"blake2b_simd::Params::hash.1":196,"blake2b_simd::Params::hash.2":66,"g_round.0":5}}
+jumble_bijection!(c10_jumble_63_inv, 63, false);
+//@ {"p":"C10","tier":"seeded:jumble","clause":"same, length 128 (left 64 / right 64)","bounds":"all messages of length 128","assume":"stub: BLAKE2b abstracted","covers":2,"t":1200,"stub":true,"unwindset":{"f4jumble::xor.0":66,"blake2b_simd::Params::hash.0":18,"blake2b_simd::Params::hash.1":196,"blake2b_simd::Params::hash.2":66,"g_round.0":5}}
+jumble_bijection!(c10_jumble_128, 128, true);
+//@ {"p":"C10","tier":"seeded:jumble","clause":"(direction jumble(inv(m))) same, length 128 (left 64 / right 64)","bounds":"all messages of length 128","assume":"stub: BLAKE2b abstracted","covers":2,"t":1200,"stub":true,"unwindset":{"f4jumble::xor.0":66,"blake2b_simd::Params::hash.0":18,"blake2b_simd::Params::hash.1":196,"blake2b_simd::Params::hash.2":66,"g_round.0":5}}
+jumble_bijection!(c10_jumble_128_inv, 128, false);
+//@ {"p":"C10","tier":"seeded:jumble","clause":"same, length 65","bounds":"all messages of length 65","assume":"stub: BLAKE2b abstracted","covers":2,"t":1200,"stub":true,"unwindset":{"f4jumble::xor.0":66,"blake2b_simd::Params::hash.0":18,"blake2b_simd::Params::hash.1":196,"blake2b_simd::Params::hash.2":66,"g_round.0":5}}
+jumble_bijection!(c10_jumble_65, 65, true);
+//@ {"p":"C10","tier":"seeded:jumble","clause":"(direction jumble(inv(m))) same, length 65","bounds":"all messages of length 65","assume":"stub: BLAKE2b abstracted","covers":2,"t":1200,"stub":true,"unwindset":{"f4jumble::xor.0":66,"blake2b_simd::Params::hash.0":18,"blake2b_simd::Params::hash.1":196,"blake2b_simd::Params::hash.2":66,"g_round.0":5}}
+jumble_bijection!(c10_jumble_65_inv, 65, false);
+//@ {"p":"C10","tier":"thorough","clause":"same, length 193 (right 129: three G blocks)","bounds":"all messages of length 193","assume":"stub: BLAKE2b abstracted","covers":2,"t":2400,"stub":true,"unwindset":{"f4jumble::xor.0":66,"blake2b_simd::Params::hash.0":18,"blake2b_simd::Params::hash.1":196,"blake2b_simd::Params::hash.2":66,"g_round.0":5}}
+jumble_bijection!(c10_jumble_193, 193, true);
+//@ {"p":"C10","tier":"thorough","clause":"(direction jumble(inv(m))) same, length 193 (right 129: three G blocks)","bounds":"all messages of length 193","assume":"stub: BLAKE2b abstracted","covers":2,"t":2400,"stub":true,"unwindset":{"f4jumble::xor.0":66,"blake2b_simd::Params::hash.0":18,"blake2b_simd::Params::hash.1":196,"blake2b_simd::Params::hash.2":66,"g_round.0":5}}
+jumble_bijection!(c10_jumble_193_inv, 193, false);
 
 //@ {"p":"C10","tier":"quick","clause":"lengths below 48 are rejected with InvalidLength by both directions and leave the buffer untouched; VALID_LENGTH is 48..=4194368","bounds":"all buffers of length 0..=47","covers":1,"t":600}
 #[kani::proof]
